@@ -1653,8 +1653,8 @@ static size_t _GD_DoMplex(DIRFILE *restrict D, gd_entry_t *restrict E,
     }
 
     /* now go and put the I/O pointers back where they belong, sigh */
-    _GD_Seek(D, E->e->entry[0], first_samp + n_read, GD_SEEK_SET);
-    _GD_Seek(D, E->e->entry[1], first_samp2 + n_read2, GD_SEEK_SET);
+    _GD_Seek(D, E->e->entry[0], first_samp + n_read, GD_FILE_READ);
+    _GD_Seek(D, E->e->entry[1], first_samp2 + n_read2, GD_FILE_READ);
   }
 
   if (n_read2 * spf1 < n_read * spf2)
